@@ -83,29 +83,31 @@ func serve(cfg string, raw []byte) (out []byte, panicked string) {
 		a = apps["d"]
 	}
 	c := newConn(raw)
-	// The server runs in its own goroutine under a watchdog: "neither crashes nor hangs" — a request
-	// that gets no reply within hangTimeout is the observation "hang" (the stuck goroutine cannot be
-	// stopped; after maxHangs of them the run stops generating, see main).
-	type res struct {
-		out      []byte
-		panicked string
-	}
-	done := make(chan res, 1)
+	p := serveWatched(a, c)
+	return c.w.Bytes(), p
+}
+
+// serveWatched runs one connection in its own goroutine under a watchdog: "neither crashes nor
+// hangs" — a request that gets no reply within hangTimeout is the observation "hang" (the stuck
+// goroutine cannot be stopped; after maxHangs of them the run stops generating, see main).
+// A panic escaping the server is returned as text.
+func serveWatched(a *fiber.App, c *memConn) string {
+	done := make(chan string, 1)
 	go func() {
 		defer func() {
 			if r := recover(); r != nil {
-				done <- res{c.w.Bytes(), strings.ReplaceAll(strings.ReplaceAll(fmt.Sprint(r), "\t", " "), "\n", " ")}
+				done <- strings.ReplaceAll(strings.ReplaceAll(fmt.Sprint(r), "\t", " "), "\n", " ")
 			}
 		}()
 		_ = a.Server().ServeConn(c)
-		done <- res{c.w.Bytes(), ""}
+		done <- ""
 	}()
 	select {
-	case r := <-done:
-		return r.out, r.panicked
+	case p := <-done:
+		return p
 	case <-time.After(hangTimeout):
 		hangs++
-		return nil, "hang: no reply within " + hangTimeout.String()
+		return "hang: no reply within " + hangTimeout.String()
 	}
 }
 
